@@ -152,7 +152,7 @@ def insertWaiter (w : Waiter) : List Waiter → List Waiter
 re-ping their step -/
 def rehydrateTicks (cfg : Cfg) (st : State) : List Tick :=
   (sortedSteps cfg).flatMap fun c =>
-    (((st.workers c.name).waiters.foldr insertWaiter []).filter (fun w => w.hasReq && w.req.isNone)).map
+    (((st.workers c.name).waiters.foldr insertWaiter []).filter (fun w => w.hasReq && w.req.isNone && w.resolved.isNone && !w.timedOut)).map
       fun w => Tick.addEvent { ev := w.ev } (some c.name)
 
 def Runner.init (cfg : Cfg) (st0 : State) (now : Int) (start : Option Ev) (timeout : Option Nat) : Runner :=
